@@ -12,6 +12,7 @@ import itertools
 import re
 import warnings
 
+import c04_sites
 from core import Stream, hexs, unhex
 
 ID = "C04"
@@ -564,9 +565,132 @@ def oracle(req, out):
             if not (-2 <= off <= len(body.encode()) + 1):
                 return f"f-string body {body!r}: offset {off} outside the literal"
         return None
+    if op == "site":
+        rule, lo, hi = ws[1], int(ws[2]), int(ws[3])
+        res, _, base = out.rpartition(" base=")
+        if base != "ok":
+            return None         # the unedited program is not accepted: no claim about the edit (C01's business)
+        kinds = SITE_KINDS[rule]
+        r = _parse_out(res)
+        if r is None:
+            return f"{rule}: the edited program was accepted"
+        if r == "?":
+            return f"unparsable answer {out!r}"
+        kind, off = r
+        if kind not in kinds:
+            return f"{rule}: rejected as {kind}, which does not name the rule ({sorted(kinds)})"
+        if not lo <= off <= hi:
+            return f"{rule}: {kind} reported at offset {off}, outside the offending construct {lo}..{hi}"
+        return None
     if op in ("parse", "lexerr"):
         return None
     return None
+
+
+SITE_KINDS = {}
+# rules whose violation is (or unbalances) a lexical matter: the ones the soft-keyword look-ahead can mask
+SOFTKW_MASKABLE = {"stray-character", "bad-line-continuation", "bracket-deleted", "bracket-mismatched",
+                   "malformed-number", "unterminated-string", "malformed-fstring", "bytes-text-mixed",
+                   "non-ascii-bytes"}
+
+
+def site_requests(ctx):
+    """(2)/(3): every catalogue edit at every applicable site of the template programs; edits CPython
+    does not reject are generator bugs: dropped and counted."""
+    reqs, dropped = [], 0
+    for t in c04_sites.TEMPLATES:
+        for e in c04_sites.edits(t):
+            SITE_KINDS.setdefault(e.rule, set()).update(e.kinds)
+            if e.stage != "any" and not py_rejects(e.text, e.stage):
+                dropped += 1
+                continue
+            reqs.append(f"site {e.rule} {e.lo} {e.hi} {hexs(e.text)} {hexs(t)}")
+    if dropped:
+        ctx.notes.append(f"site generator: {dropped} edits dropped because CPython accepts the edited text")
+    return reqs
+
+
+_SOFTKW_LINE = re.compile(rb"[ \t]*(match|case)[ \t]")
+
+
+def _softkw_masked(text_b, pos, impl_out):
+    """The edit at byte `pos` lies on a logical line that starts with the soft keyword match/case and
+    the implementation answered with a plain syntax error at the keyword or at the token after it."""
+    r = _parse_out(impl_out.rpartition(" base=")[0] if " base=" in impl_out else impl_out)
+    if r in (None, "?") or r[0] != "Syntax":
+        return False
+    ls = text_b.rfind(b"\n", 0, pos) + 1
+    m = _SOFTKW_LINE.match(text_b, ls)
+    if not m:
+        return False
+    kw_lo, kw_hi = m.start(1), m.end(1)
+    return kw_lo <= r[1] <= kw_hi + 1
+
+
+def classify(req, impl_out, model_out, failure):
+    """known findings (known_findings.d/C04.json)"""
+    ws = req.split()
+    if ws[0] == "site" and failure and ws[1] in SOFTKW_MASKABLE:
+        if _softkw_masked(unhex(ws[4]), int(ws[2]) + 1, impl_out):
+            return "softkw-lookahead-masks-error-on-match-case-line"
+    if ws[0] == "fstr" and impl_out == "ok" and failure:
+        body = unhex(ws[1]).decode()
+        # a self-documenting `=` followed (after blanks) by a delimiter or a quote
+        if re.search(r"(?<![=!<>])=(?!=) *[\(\[\{\"']", body):
+            return "fstring-delimiter-after-selfdoc-equals"
+    return None
+
+
+# ------------------------------------------------------------------ spec validation against CPython
+
+def pre_build(ctx):
+    """The Spec predicates used by the oracle are validated against CPython 3.11 on the exhaustive
+    abstract domains: a disagreement is a defect of the SPEC (repaired there), reported as an
+    unchecked obligation, never as a violation of the property by the parser."""
+    res = []
+
+    def check(name, items):
+        bad = [d for d in items if d is not None]
+        res.append(("spec-validation " + name, not bad, "; ".join(bad[:3])))
+
+    def both(text, violated, stage="parse"):
+        rej = py_rejects(text, stage)
+        if rej is None or rej == bool(violated):
+            return None
+        return f"{text!r}: spec says {'invalid' if violated else 'valid'}, CPython {'rejects' if rej else 'accepts'}"
+
+    def one(text, violated, stage="parse"):
+        if violated and py_rejects(text, stage) is False:
+            return f"{text!r}: spec says invalid, CPython accepts"
+        return None
+
+    sigs = all_sigs(4)
+    check("parameter lists (def, lambda)",
+          [both(pre + render_sig(sig_items(e))[0] + post, spec_sig(sig_items(e)), "compile")
+           for e in sigs for pre, post in SIG_CTX])
+    check("argument lists",
+          [both(pre + render_call(call_items(e))[0] + post, spec_call(call_items(e)), "compile")
+           for e in all_calls(4) for pre, post in CALL_CTX])
+    check("parenthesised stars",
+          [both(render_paren(e)[0], spec_paren(e)) for e in all_parens(3) if e != "c"])
+    check("as-patterns",
+          [both(f"match s:\n case {p} as {t}:\n  pass\n", t == "_") for p in PATTERNS for t in TARGETS])
+    check("bracket words",
+          [both(render_brackets("sep", w), spec_brackets(w) is not None) for w in words("()[]{}", 5)])
+
+    def ind(e):
+        text, lines, starts = render_indent(e)
+        return both(text, spec_indent(lines, starts, len(text)) is not None)
+    check("indentation scripts",
+          [ind(e) for e in indent_scripts(3, WS_SMALL, "opbc")] +
+          [ind(e) for e in indent_scripts(3, ["-", "t", "ss"] + WS_EXTRA, "op") if e.count(",") == 3])
+    check("numerals", [one(w, spec_num(w) is not None) for w in words(NUM_ALPHA, 4, 1)])
+    check("string literals", [one(w, spec_strlex(w) is not None) for w in words(STR_ALPHA, 5, 1)])
+    check("characters", [one("x" + chr(c) + ("=" if e else "") + "y", spec_chr(c, e) is not None)
+                         for c in range(128) for e in (0, 1)])
+    check("literal concatenations", [both(" ".join(STRS[c] for c in w), any(c in "bR" for c in w) and
+                                          not all(c in "bR" for c in w)) for w in words("bsfurRF", 3, 1)])
+    return res
 
 
 # ------------------------------------------------------------------ generators
@@ -806,4 +930,10 @@ def streams(ctx):
                       note="parameter lists in async def/method/nested def/lambda in list, call, default, dict; argument "
                            "lists in decorators, nested calls, class keywords, with-items; parenthesised star forms in "
                            "12 expression positions; `as` patterns in 9 pattern positions; literal concatenations"))
+    out.append(Stream("single-edits-at-every-site", site_requests(ctx), kind="directed", compare=False,
+                      nontrivial=lambda r: True,
+                      note="23 kinds of single rule-violating edits (duplicate/default/bare-star parameters, call-site "
+                           "orderings, parenthesised stars, `as _`, deleted/mismatched brackets, stray characters, bad "
+                           "continuations, malformed numbers/strings/f-strings, indentation edits) at every site that "
+                           "CPython's ast/tokenize finds in three template programs; oracle only"))
     return out
